@@ -338,6 +338,9 @@ def run_variant(c, runner, hist, work, tag):
     `prebuild`   — every deployment is RimePrebuildAllSchemas (`prebuild_all_schemas`), compared with a clean one of those;
     `piecewise`  — every deployment is RimeDeployConfigFile(default.yaml) followed by RimeDeploySchema for each schema
                    a workspace update would build, compared with a clean full deployment;
+    `same_process` — the last two deployments of the history run in ONE process, the sources edited in between (what a
+                   deployment keeps in the process — vocabulary, config and dictionary objects — meets the new sources), then a
+                   no-change redeployment in a fresh process; compared with a clean full deployment;
     `verbose`    — after the history, every schema is compiled once more the way `rime_deployer --compile` does (rebuild
                    all, dump text files), compared with a clean full deployment."""
     mode = hist["variant"]
@@ -363,11 +366,25 @@ def run_variant(c, runner, hist, work, tag):
         w0.write(root)
         shutil.copytree(os.path.join(pre, "user", "build"), os.path.join(root, "shared", "build"))
     w = None
+    if mode == "same_process" and len(states) >= 2:
+        # the last state is written next to the workspace and copied over it (modification times kept) between the two
+        # deployments of the last process; a history whose last step removes a file is not driven this way
+        nxt = os.path.join(work, tag + "_next")
+        shutil.rmtree(nxt, ignore_errors=True)
+        os.makedirs(nxt)
+        dc.Workspace.from_json(states[-1]).write(nxt)
+        states = states[:-1]
     for i, sj in enumerate(states):
         w = dc.Workspace.from_json(sj)
         w.write(root)
         t = tasks_for(w, root)
-        r = runner.deploy(root, w.clock + 3, extra_env={"VERIF_TASKS": t} if t else None)
+        env = {"VERIF_TASKS": t} if t else {}
+        if mode == "same_process" and i == len(states) - 1:
+            env["VERIF_BETWEEN"] = "cp -a %s/shared/. %s/shared/ && cp -a %s/user/. %s/user/" % (nxt, root, nxt, root)
+            w = dc.Workspace.from_json(hist["steps"][-1])
+        r = runner.deploy(root, w.clock + 3 - (4 if "VERIF_BETWEEN" in env else 0), extra_env=env or None)
+        if "VERIF_BETWEEN" in env:
+            shutil.rmtree(nxt, ignore_errors=True)
         res["deploys"] += 1
         res.setdefault("trace", []).append({"rc": r["rc"], "tasks": r["tasks"], "rewritten": r["rewritten"]})
         if r["rc"] not in (0, 1):
@@ -400,7 +417,7 @@ def run_variant(c, runner, hist, work, tag):
                                   "after the history (%s), %s: %s (clean deploy of the final sources disagrees)" % (mode, n, what)))
     if (rc_["rc"] == 0) != (r2["rc"] == 0):
         res["violations"].append(("C12:incremental-vs-clean:verdict", "incremental (%s) and clean deployments return different verdicts" % mode))
-    if not diffs and mode in ("prebuilt", "verbose"):
+    if not diffs and mode in ("prebuilt", "verbose", "same_process"):
         pairs = dc.session_inputs(w)
         _, t1 = runner.session(root, pairs)
         _, t2 = runner.session(croot, pairs)
@@ -788,10 +805,13 @@ def directed_histories(far=True):
        ("indirect tweaks: page size", edit("tweaks.yaml", lambda f: f.__setitem__("patch", [["menu/page_size", 9]]))),
        ("indirect tweaks: algebra", edit("tweaks.yaml", lambda f: f.__setitem__("patch", [["speller/algebra/+", ["derive/^d/t/"]]]))),
        ("custom_on sc (ignored: the schema names its own patch)", lambda w: w.put("user/sc.custom.yaml", {"kind": "custom", "patch": [["menu/page_size", 3]]})))
-    mk("vocabulary file of another name (vocabulary: lexicon) -> table",
-       ("indirect lexicon: phrase added", edit("lexicon.txt", lambda f: f["rows"].append([dc.HAN[20] + dc.HAN[22], 60]))),
-       ("db lets phrases in", edit("db.dict.yaml", lambda f: (f.pop("max_phrase_length"), f.pop("min_phrase_weight")))),
+    mk("vocabulary file of another name (vocabulary: lexicon) -> pack tables",
+       ("indirect lexicon: phrase added", edit("lexicon.txt", lambda f: f["rows"].append([dc.HAN[31] + dc.HAN[32], 260]))),
+       ("pk1 lets every phrase in", edit("pk1.dict.yaml", lambda f: f.pop("min_phrase_weight"))),
        ("indirect lexicon: phrase removed", edit("lexicon.txt", lambda f: f["rows"].pop())))
+    mk("vocabulary filters of a pack compiled earlier in the same deployment (both on the named vocabulary): the later pack edited alone",
+       ("row_add pk2", edit("pk2.dict.yaml", lambda f: f["rows"].append(["们", "ba", 9]))),
+       ("row_add pk1 (the filtering one) alone", edit("pk1.dict.yaml", lambda f: f["rows"].append(["们", "bo", 9]))))
     mk("files that come and go with old modification times: only the directory shows it (cp -p, rm)",
        ("old_mtime sa.custom", lambda w: w.put("user/sa.custom.yaml", {"kind": "custom", "patch": [["menu/page_size", 7]], "skew": -500000})),
        ("custom_off sa", lambda w: w.remove("user/sa.custom.yaml")),
@@ -980,10 +1000,12 @@ def run(c):
                                                    "primary dictionary source vanishes", "pack source vanishes")]
                     + [("prebuild", h) for h in pick("imported table ->")]
                     + [("piecewise", h) for h in pick("included config ->", "default.custom appears")]
-                    + [("verbose", h) for h in pick("preset vocabulary ->")])
+                    + [("verbose", h) for h in pick("preset vocabulary ->")]
+                    + [("same_process", h) for h in pick("preset vocabulary ->", "vocabulary file of another name", "schema algebra")])
     else:
         ok_final = [h for h in base_dir if dc.Workspace.from_json(h["steps"][-1]).deployable() and not h.get("tamper") and not h.get("legacy_symlinks")]
-        variants = [(m, h) for m in ("prebuilt", "prebuild", "piecewise", "verbose") for h in ok_final
+        no_rm = [h for h in ok_final if set(h["steps"][-1]["files"]) >= set((h["steps"][-2] if len(h["steps"]) > 1 else h["base"])["files"])]
+        variants = [("same_process", h) for h in no_rm] + [(m, h) for m in ("prebuilt", "prebuild", "piecewise", "verbose") for h in ok_final
                     if not (m in ("prebuild", "piecewise") and ("user cop" in h["directed"] or "multi-part" in h["directed"]))]
     for i, (mode, hist) in enumerate(variants):
         h2 = dict(hist, variant=mode)
